@@ -32,3 +32,15 @@ func TestDebugReplayS(t *testing.T) {
 		}
 	}
 }
+
+func TestDebugClone(t *testing.T) {
+	var c CloneCase
+	if err := loadCaseFile(os.Getenv("DBG_FILE"), &c); err != nil {
+		t.Fatal(err)
+	}
+	f, trace, labels, err := runCloneCase(c)
+	fmt.Println("FAIL:", f, "ERR:", err, labels)
+	for _, l := range trace {
+		fmt.Println(l)
+	}
+}
